@@ -1,15 +1,133 @@
 /-
-  HAND-WRITTEN specification of the domain accepted by svt_av1_enc_set_parameter, one conjunct per
-  validation rule (numbered as the rules appear in verify_settings).  Sources: Docs/svt-av1_encoder_user_guide.md
-  (parameter tables) and Source/API/EbSvtAv1Enc.h member comments; where code and documentation disagree the
-  conjunct states what the CODE enforces and the disagreement is listed in `Deviations` below (known findings F10).
-  Conjuncts marked `code-defined` have no independent documented formula (derived quantities such as the
-  default intra period / look-ahead, the HME area sums, the effective frame rate): they are stated through the
-  generated term itself and are therefore NOT independently specified.
+  HAND-WRITTEN specification of the domain accepted by svt_av1_enc_set_parameter, one conjunct per validation rule
+  (numbered as the rules appear in verify_settings).  Sources: Docs/svt-av1_encoder_user_guide.md (parameter tables),
+  Source/API/EbSvtAv1Enc.h member comments and, where neither documents a formula (default intra period, default and
+  capped look-ahead, HME area sums, the manual prediction structure), the C code of EbEncHandle.c read by hand (the
+  source lines are cited at each definition).  Where code and documentation disagree the conjunct states what the CODE
+  enforces and the disagreement is a named deviation (theorems `dev_*` in Props/C12.lean, DOC_DEVIATIONS in checks/c12.py).
+  Nothing in this file refers to a generated rule or helper: only the generated *structures* `Cfg`, `Scs`, `PredEntry`
+  (the members of the C structures) are used.  checks/c12.py enforces that textually.
 -/
 import SvtVerif.Gen.Config
 namespace Spec.ConfigDomain
 open Gen.Config
+
+/-! ## C integer conversions (plain `Int` arithmetic; the 2^32 wrap is explicit) -/
+
+/-- value of a `uint32_t` that holds the low 32 bits of `x` -/
+def u32 (x : Int) : Int := x % 4294967296
+
+/-- value of an `int32_t` that holds the low 32 bits of `x` (two's complement) -/
+def i32 (x : Int) : Int :=
+  if x % 4294967296 < 2147483648 then x % 4294967296 else x % 4294967296 - 4294967296
+
+/-- `a << k` before it is narrowed to 32 bits: from k = 32 on no bit of `a` survives the narrowing
+    (so the power is only ever built for k < 32) -/
+def shl (a k : Int) : Int := if k < 32 then a * 2 ^ k.toNat else 0
+
+/-! ## Frame rate -/
+
+/-- The frame rate `verify_settings` sees.  EbEncHandle.c:2409-2410: when FrameRateNumerator and FrameRateDenominator
+    are both non-zero the Q16 rate is `((num << 8) / den) << 8`, every step in `uint32_t` arithmetic (both shifts can
+    drop high bits); otherwise it is the member FrameRate as given. -/
+def frameRate (c : Cfg) : Int :=
+  if c.frame_rate_numerator ≠ 0 ∧ c.frame_rate_denominator ≠ 0 then
+    u32 (u32 (c.frame_rate_numerator * 256) / c.frame_rate_denominator * 256)
+  else c.frame_rate
+
+/-- Frames per second as an integer.  User guide l.150: "If the number is less than 1000, the input frame rate is an
+    integer number [...], else the input number is in Q16 format" (EbEncHandle.c:1994-1996, 2038-2040). -/
+def fpsOf (fr : Int) : Int := if fr < 1000 then fr else fr / 65536
+
+/-! ## Intra period -/
+
+/-- EbEncHandle.c:1989-2010 `compute_default_intra_period`: "Sets the default intra period the closest possible to
+    1 second without breaking the minigop": with mini-GOP size m = 2^HierarchicalLevels, `lo`/`hi` are the multiples of
+    m just below (or at) and just above fps; the nearer one is taken (`hi` on a tie), minus one when IntraRefreshType = 1.
+    For HierarchicalLevels ≥ 31 `1 << levels` no longer fits an `int` (the shift is undefined in C); the second branch
+    transcribes the function with two's-complement wrap-around at every `int` operation, division truncating (and a
+    division by the resulting 0 yielding 0). -/
+def defaultIntraPeriod (fr hl refresh : Int) : Int :=
+  let fps := fpsOf fr
+  if hl ≤ 30 then
+    let m : Int := 2 ^ hl.toNat
+    let lo := fps / m * m
+    let hi := lo + m
+    (if hi - fps > fps - lo then lo else hi) - (if refresh = 1 then 1 else 0)
+  else
+    let m := i32 (shl 1 hl)
+    let lo := i32 (i32 (Int.tdiv fps m) * m)
+    let hi := i32 (i32 (Int.tdiv (i32 (fps + m)) m) * m)
+    let abs := fun (x : Int) => if i32 x < 0 then i32 (- i32 x) else i32 x
+    i32 ((if abs (fps - hi) > abs (fps - lo) then lo else hi) - (if refresh = 1 then 1 else 0))
+
+/-- The intra period `verify_settings` sees (EbEncHandle.c:2412-2413): -2 is replaced by the default. -/
+def intraPeriod (c : Cfg) : Int :=
+  if c.intra_period_length = -2 then defaultIntraPeriod (frameRate c) c.hierarchical_levels c.intra_refresh_type
+  else c.intra_period_length
+
+/-! ## Look-ahead distance -/
+
+/-- `(2 << HierarchicalLevels) + 1` as a `uint32_t` (EbEncHandle.c:2025, 2041): two mini-GOPs plus one; from 31 levels on
+    the shifted 2 has left the 32 bits. -/
+def maxCqpLookAhead (hl : Int) : Int := (if hl < 31 then 2 ^ (hl.toNat + 1) else 0) + 1
+
+/-- EbEncHandle.c:2021-2031 `compute_default_look_ahead` (LookAheadDistance = (uint32_t)~0 means "default"): without rate
+    control, or without a non-negative intra period, two mini-GOPs + 1 (0 when enable_tpl_la = 1: TPL_LAD is 0); else the
+    intra period. -/
+def defaultLookAhead (rc ip tpl hl : Int) : Int :=
+  if rc = 0 ∨ ip < 0 then (if tpl = 1 then 0 else maxCqpLookAhead hl) else ip
+
+/-- EbEncHandle.c:2033-2055 `cap_look_ahead_distance`: capped by two mini-GOPs + 1 in CQP mode, by 2 seconds otherwise,
+    and by MAX_LAD = 120 always. -/
+def cappedLookAhead (rc lad fr hl : Int) : Int :=
+  min (if rc = 0 then min lad (maxCqpLookAhead hl) else min lad (fpsOf fr * 2)) 120
+
+/-- The look-ahead distance `verify_settings` sees (EbEncHandle.c:2417-2429): default or capped value, then forced to 0
+    when enable_tpl_la is set and the encoder is in CQP mode or reads first-pass statistics. -/
+def lookAhead (c : Cfg) : Int :=
+  let l := if c.look_ahead_distance = 4294967295 then
+      defaultLookAhead c.rate_control_mode (intraPeriod c) c.enable_tpl_la c.hierarchical_levels
+    else cappedLookAhead c.rate_control_mode c.look_ahead_distance (frameRate c) c.hierarchical_levels
+  if c.enable_tpl_la ≠ 0 ∧ 0 < l ∧ (c.rate_control_mode = 0 ∨ c.rc_twopass_stats_in_sz ≠ 0) then 0 else l
+
+/-! ## HME search areas -/
+
+/-- the sum of the first `n` cells in `uint32_t` arithmetic (EbEncHandle.c:2484-2485, 2500-2501) -/
+def hmeSum (n : Int) (a : List Int) : Int := u32 (a.take n.toNat).sum
+
+/-- an array of the sequence control set after the first `n` cells were copied from the caller's array (EbEncHandle.c:2276-2288) -/
+def copied (n : Int) (src dst : List Int) : List Int := src.take n.toNat ++ dst.drop n.toNat
+
+/-! ## Colour format -/
+
+/-- EbEncHandle.c:2364-2368: 4:0:0 (0) is replaced by 4:2:0 (1) before validation -/
+def colorFormat (c : Cfg) : Int := if c.encoder_color_format = 0 then 1 else c.encoder_color_format
+
+/-! ## Manual prediction structure (EbEncHandle.c:2973-3016; the only description is the error texts) -/
+
+/-- Entry number `i` (0-based; it is picture `i + 1` of the mini-GOP) of a structure of `n` entries:
+    * "Invalid decode order for manual prediction structure [0 - 31]", "Invalid temporal layer index [...] [0 - 31]";
+    * "all ref frames in list1 should not exceed minigop end": picture `i + 1 - ref` is at most `n`; the difference is an
+      `int32_t` one, and only the first three cells are looked at (the code clears the fourth before the test, l.2980);
+    * "only forward frames can be in list0": no negative cell;
+    * "there should be at least one frame within minigop": some non-zero list0 cell is at most `i + 1`. -/
+def validEntry (n : Int) (i : Nat) (e : PredEntry) : Prop :=
+  e.decode_order < 32 ∧ e.temporal_layer_index < 32 ∧
+  (∀ j, j < 3 → i32 ((i : Int) + 1 - e.ref_list1.getD j 0) ≤ n) ∧
+  (∀ j, j < 4 → 0 ≤ e.ref_list0.getD j 0) ∧
+  (∃ j, j < 4 ∧ 1 ≤ e.ref_list0.getD j 0 ∧ e.ref_list0.getD j 0 ≤ (i : Int) + 1)
+
+instance (n : Int) (i : Nat) (e : PredEntry) : Decidable (validEntry n i e) := by
+  unfold validEntry; infer_instance
+
+/-- "Invalid manual prediction structure entry number [1 - 32]" (only the upper bound is tested), and every one of the
+    first `n` entries is valid. -/
+def validManualPredStruct (n : Int) (es : List PredEntry) : Prop :=
+  n ≤ 32 ∧ ∀ i, i < n.toNat → validEntry n i (es.getD i default)
+
+instance (n : Int) (es : List PredEntry) : Decidable (validManualPredStruct n es) := by
+  unfold validManualPredStruct; infer_instance
 
 structure CodeDomain (s : Scs) (c : Cfg) : Prop where
   /-- EncoderMode must be in the range of [0-%d] -/
@@ -36,10 +154,10 @@ structure CodeDomain (s : Scs) (c : Cfg) : Prop where
   d10 : c.qp ≤ 63
   /-- Hierarchical Levels supported [0-5] -/
   d11 : (if c.enable_manual_pred_struct ≠ 0 then True else c.hierarchical_levels ≤ 5)
-  /-- The intra period must be [-2, 2^31-2]   (code-defined) -/
-  d12 : rej12 s c = false
-  /-- The intra period must be [-2, 255] for RateControlMode %d   (code-defined) -/
-  d13 : rej13 s c = false
+  /-- The intra period must be [-2, 2^31-2] (user guide l.223 IntraPeriod `[-2 - 2^31-2]`; EbEncHandle.c:2571, only tested in CQP mode; -2 stands for the default intra period) -/
+  d12 : c.rate_control_mode = 0 → -2 ≤ intraPeriod c ∧ intraPeriod c ≤ 2147483646
+  /-- user guide l.223: `if RateControlMode >= 1 intra-period limited to [-2, 255]` (EbEncHandle.c:2576) -/
+  d13 : 1 ≤ c.rate_control_mode → -2 ≤ intraPeriod c ∧ intraPeriod c ≤ 255
   /-- Invalid intra Refresh Type [1-2] -/
   d14 : 1 ≤ c.intra_refresh_type ∧ c.intra_refresh_type ≤ 2
   /-- Invalid LoopFilterDisable. LoopFilterDisable must be [0 - 1] -/
@@ -68,34 +186,34 @@ structure CodeDomain (s : Scs) (c : Cfg) : Prop where
   d26 : c.enable_hme_flag ≠ 0 → (c.hme_level0_total_search_area_height ≤ 480 ∧ c.hme_level0_total_search_area_height ≠ 0)
   /-- Invalid hme_level0_total_search_area_width. hme_level0_total_search_area_width must be [1 - 480] -/
   d27 : c.enable_hme_flag ≠ 0 → (c.hme_level0_total_search_area_width ≤ 480 ∧ c.hme_level0_total_search_area_width ≠ 0)
-  /--    (code-defined) -/
-  d28 : rej28 s c = false
-  /--    (code-defined) -/
-  d29 : rej29 s c = false
-  /--    (code-defined) -/
-  d30 : rej30 s c = false
-  /--    (code-defined) -/
-  d31 : rej31 s c = false
-  /--    (code-defined) -/
-  d32 : rej32 s c = false
-  /--    (code-defined) -/
-  d33 : rej33 s c = false
+  /-- `Summed values of HME area does not equal the total area` (EbEncHandle.c:2649, 2478-2491): level-0 heights of the NumberHmeSearchRegionInHeight regions add up to HmeLevel0TotalSearchAreaHeight -/
+  d28 : c.enable_hme_flag ≠ 0 → hmeSum c.number_hme_search_region_in_height c.hme_level0_search_area_in_height_array = c.hme_level0_total_search_area_height
+  /-- EbEncHandle.c:2651: level-0 widths of the NumberHmeSearchRegionInWidth regions add up to HmeLevel0TotalSearchAreaWidth -/
+  d29 : c.enable_hme_flag ≠ 0 → hmeSum c.number_hme_search_region_in_width c.hme_level0_search_area_in_width_array = c.hme_level0_total_search_area_width
+  /-- `Invalid HME Total Search Area. Must be [1 - 480]` (EbEncHandle.c:2653, 2494-2509): level-1 widths -/
+  d30 : c.enable_hme_flag ≠ 0 → 1 ≤ hmeSum c.number_hme_search_region_in_width c.hme_level1_search_area_in_width_array ∧ hmeSum c.number_hme_search_region_in_width c.hme_level1_search_area_in_width_array ≤ 480
+  /-- EbEncHandle.c:2655: level-1 HEIGHTS, but the code sums NumberHmeSearchRegionInWIDTH cells of the array in the sequence control set, of which only NumberHmeSearchRegionInHeight were copied from the caller (EbEncHandle.c:2283-2288) -/
+  d31 : c.enable_hme_flag ≠ 0 → 1 ≤ hmeSum c.number_hme_search_region_in_width (copied c.number_hme_search_region_in_height c.hme_level1_search_area_in_height_array s.static_config_hme_level1_search_area_in_height_array) ∧ hmeSum c.number_hme_search_region_in_width (copied c.number_hme_search_region_in_height c.hme_level1_search_area_in_height_array s.static_config_hme_level1_search_area_in_height_array) ≤ 480
+  /-- EbEncHandle.c:2657: level-2 widths, total in [1 - 480] -/
+  d32 : c.enable_hme_flag ≠ 0 → 1 ≤ hmeSum c.number_hme_search_region_in_width c.hme_level2_search_area_in_width_array ∧ hmeSum c.number_hme_search_region_in_width c.hme_level2_search_area_in_width_array ≤ 480
+  /-- EbEncHandle.c:2659: level-2 HEIGHTS summed over the WIDTH region count (same quirk as for level 1) -/
+  d33 : c.enable_hme_flag ≠ 0 → 1 ≤ hmeSum c.number_hme_search_region_in_width (copied c.number_hme_search_region_in_height c.hme_level2_search_area_in_height_array s.static_config_hme_level2_search_area_in_height_array) ∧ hmeSum c.number_hme_search_region_in_width (copied c.number_hme_search_region_in_height c.hme_level2_search_area_in_height_array s.static_config_hme_level2_search_area_in_height_array) ≤ 480
   /-- The maximum allowed profile value is 2 -/
   d34 : c.profile ≤ 2
-  /-- The maximum allowed frame rate is 240 fps   (code-defined) -/
-  d35 : rej35 s c = false
-  /-- The frame rate should be greater than 0 fps   (code-defined) -/
-  d36 : rej36 s c = false
+  /-- user guide l.150 `[Max allowed is 240 fps]`; EbEncHandle.c:2669 compares the Q16 rate with 240 << 16 -/
+  d35 : frameRate c ≤ 15728640
+  /-- `The frame rate should be greater than 0 fps` (EbEncHandle.c:2674) -/
+  d36 : frameRate c ≠ 0
   /-- The rate control mode must be [0 - 2] -/
   d37 : c.rate_control_mode ≤ 2
-  /-- The rate control mode 2/3 LAD must be equal to intra_period   (code-defined) -/
-  d38 : rej38 s c = false
-  /-- The lookahead distance must be [0 - %d]   (code-defined) -/
-  d39 : rej39 s c = false
+  /-- `The rate control mode 2/3 LAD must be equal to intra_period` (EbEncHandle.c:2683; user guide l.233) -/
+  d38 : (c.rate_control_mode = 2 ∨ c.rate_control_mode = 3) → 0 ≤ intraPeriod c → lookAhead c = intraPeriod c
+  /-- user guide l.233 LookAheadDistance `[0 - 120]`; EbEncHandle.c:2687 (tested after the defaulting/capping of copy_api_from_app) -/
+  d39 : lookAhead c ≤ 120 ∨ lookAhead c = 4294967295
   /-- Log2Tile rows/cols must be [0 - 6] -/
   d40 : c.tile_rows % 4294967296 ≤ 6 ∧ c.tile_columns % 4294967296 ≤ 6
-  /-- MaxTiles is 128 and MaxTileCols is 16 (Annex A.3)   (code-defined) -/
-  d41 : rej41 s c = false
+  /-- `MaxTiles is 128 and MaxTileCols is 16 (Annex A.3)` (EbEncHandle.c:2696): 2^rows * 2^cols ≤ 128 and 2^cols ≤ 16, for log2 values already in [0, 6] (d40) -/
+  d41 : c.tile_columns ≤ 4 ∧ c.tile_rows + c.tile_columns ≤ 7
   /-- Invalid Unrestricted Motion Vector flag [0 - 1] -/
   d42 : c.unrestricted_motion_vector ≤ 1
   /-- Scene change detection is currently not supported -/
@@ -120,18 +238,18 @@ structure CodeDomain (s : Scs) (c : Cfg) : Prop where
   d52 : ¬ ((c.profile = 0 ∨ c.profile = 1) ∧ 10 < c.encoder_bit_depth)
   /-- Only support 420 now -/
   d53 : c.encoder_color_format = 0 ∨ c.encoder_color_format = 1
-  /-- Non 420 color format requires profile 1 or 2   (code-defined) -/
-  d54 : rej54 s c = false
-  /-- Profile 1 requires 4:4:4 color format   (code-defined) -/
-  d55 : rej55 s c = false
-  /-- Profile 2 bit-depth < 10 requires 4:2:2 color format   (code-defined) -/
-  d56 : rej56 s c = false
+  /-- `Non 420 color format requires profile 1 or 2` (EbEncHandle.c:2771; 4:0:0 has been turned into 4:2:0 by then) -/
+  d54 : c.profile = 0 → colorFormat c ≤ 1
+  /-- `Profile 1 requires 4:4:4 color format` (EbEncHandle.c:2776) -/
+  d55 : c.profile = 1 → colorFormat c = 3
+  /-- `Profile 2 bit-depth < 10 requires 4:2:2 color format` (EbEncHandle.c:2781; the test is bit depth ≤ 10) -/
+  d56 : c.profile = 2 ∧ c.encoder_bit_depth ≤ 10 → colorFormat c = 2
   /-- Compressed ten bit format is not supported in this version -/
   d57 : c.compressed_ten_bit_format = 0
   /-- Invalid Speed Control flag [0 - 1] -/
   d58 : c.speed_control_flag ≤ 1
-  /-- param '--asm' have invalid value. Value should be [0 - 11] or [c, mmx, sse, sse2, sse3, ssse3, sse4_   (code-defined) -/
-  d59 : rej59 s c = false
+  /-- `param '--asm' have invalid value` (EbEncHandle.c:2797; EbSvtAv1.h:319 CPU_FLAGS_INVALID = the top bit of the 64-bit flag word) -/
+  d59 : c.use_cpu_flags % 18446744073709551616 < 9223372036854775808
   /-- Invalid target_socket. target_socket must be [-1 - 1] -/
   d60 : c.target_socket = -1 ∨ c.target_socket = 0 ∨ c.target_socket = 1
   /-- invalid altref-strength, should be in the range [0 - %d] -/
@@ -150,8 +268,8 @@ structure CodeDomain (s : Scs) (c : Cfg) : Prop where
   d67 : c.enable_intra_edge_filter = 0 ∨ c.enable_intra_edge_filter = 1 ∨ c.enable_intra_edge_filter = -1
   /-- Invalid pic_based_rate_est [0/1, -1], your input: %d -/
   d68 : 1 < c.logical_processors ∨ c.pic_based_rate_est = 0 ∨ c.pic_based_rate_est = 1 ∨ c.pic_based_rate_est = -1
-  /-- Invalid HBD mode decision flag [-1 - 2], your input: %d   (code-defined) -/
-  d69 : rej69 s c = false
+  /-- `Invalid HBD mode decision flag [-1 - 2]` (EbEncHandle.c:2854; with an 8-bit encoder the member is replaced by 0 first, EbEncHandle.c:2322, i.e. not validated) -/
+  d69 : 8 < c.encoder_bit_depth → -1 ≤ c.enable_hbd_mode_decision ∧ c.enable_hbd_mode_decision ≤ 2
   /-- Invalid Palette Mode [0 .. 6], your input: %i -/
   d70 : -1 ≤ c.palette_level ∧ c.palette_level ≤ 6
   /-- Invalid RDOQ parameter [-1, 0, 1], your input: %i -/
@@ -196,8 +314,8 @@ structure CodeDomain (s : Scs) (c : Cfg) : Prop where
   d90 : c.nsq_table = 0 ∨ c.nsq_table = 1 ∨ c.nsq_table = -1
   /-- Invalid frame_end_cdf_update flag [0/1 or -1 for auto], your input: %d -/
   d91 : c.frame_end_cdf_update = 0 ∨ c.frame_end_cdf_update = 1 ∨ c.frame_end_cdf_update = -1
-  /-- manual prediction structure (opaque) -/
-  d92 : c.enable_manual_pred_struct = 0 ∨ s.manual_pred_struct_rejected = 0
+  /-- manual prediction structure (EbEncHandle.c:2973-3016) -/
+  d92 : c.enable_manual_pred_struct = 0 ∨ validManualPredStruct c.manual_pred_struct_entry_num c.pred_struct
   /-- invalid superres-mode %d, should be in the range [%d - %d], only SUPERRES_NONE (0), SUPERRES_FIXED ( -/
   d93 : c.superres_mode ≤ 2
   /-- superres is not supported for 2-pass -/
@@ -223,8 +341,8 @@ def codeDomainChecks : List (Scs → Cfg → Bool) := [
   fun s c => decide (c.source_height % 65536 ≤ 2160),
   fun s c => decide (c.qp ≤ 63),
   fun s c => decide ((if c.enable_manual_pred_struct ≠ 0 then True else c.hierarchical_levels ≤ 5)),
-  fun s c => decide (rej12 s c = false),
-  fun s c => decide (rej13 s c = false),
+  fun s c => decide (c.rate_control_mode = 0 → -2 ≤ intraPeriod c ∧ intraPeriod c ≤ 2147483646),
+  fun s c => decide (1 ≤ c.rate_control_mode → -2 ≤ intraPeriod c ∧ intraPeriod c ≤ 255),
   fun s c => decide (1 ≤ c.intra_refresh_type ∧ c.intra_refresh_type ≤ 2),
   fun s c => decide (c.disable_dlf_flag ≤ 1),
   fun s c => decide (c.use_default_me_hme ≤ 1),
@@ -239,20 +357,20 @@ def codeDomainChecks : List (Scs → Cfg → Bool) := [
   fun s c => decide (c.enable_hme_flag ≠ 0 → (c.number_hme_search_region_in_height ≤ 2 ∧ c.number_hme_search_region_in_height ≠ 0)),
   fun s c => decide (c.enable_hme_flag ≠ 0 → (c.hme_level0_total_search_area_height ≤ 480 ∧ c.hme_level0_total_search_area_height ≠ 0)),
   fun s c => decide (c.enable_hme_flag ≠ 0 → (c.hme_level0_total_search_area_width ≤ 480 ∧ c.hme_level0_total_search_area_width ≠ 0)),
-  fun s c => decide (rej28 s c = false),
-  fun s c => decide (rej29 s c = false),
-  fun s c => decide (rej30 s c = false),
-  fun s c => decide (rej31 s c = false),
-  fun s c => decide (rej32 s c = false),
-  fun s c => decide (rej33 s c = false),
+  fun s c => decide (c.enable_hme_flag ≠ 0 → hmeSum c.number_hme_search_region_in_height c.hme_level0_search_area_in_height_array = c.hme_level0_total_search_area_height),
+  fun s c => decide (c.enable_hme_flag ≠ 0 → hmeSum c.number_hme_search_region_in_width c.hme_level0_search_area_in_width_array = c.hme_level0_total_search_area_width),
+  fun s c => decide (c.enable_hme_flag ≠ 0 → 1 ≤ hmeSum c.number_hme_search_region_in_width c.hme_level1_search_area_in_width_array ∧ hmeSum c.number_hme_search_region_in_width c.hme_level1_search_area_in_width_array ≤ 480),
+  fun s c => decide (c.enable_hme_flag ≠ 0 → 1 ≤ hmeSum c.number_hme_search_region_in_width (copied c.number_hme_search_region_in_height c.hme_level1_search_area_in_height_array s.static_config_hme_level1_search_area_in_height_array) ∧ hmeSum c.number_hme_search_region_in_width (copied c.number_hme_search_region_in_height c.hme_level1_search_area_in_height_array s.static_config_hme_level1_search_area_in_height_array) ≤ 480),
+  fun s c => decide (c.enable_hme_flag ≠ 0 → 1 ≤ hmeSum c.number_hme_search_region_in_width c.hme_level2_search_area_in_width_array ∧ hmeSum c.number_hme_search_region_in_width c.hme_level2_search_area_in_width_array ≤ 480),
+  fun s c => decide (c.enable_hme_flag ≠ 0 → 1 ≤ hmeSum c.number_hme_search_region_in_width (copied c.number_hme_search_region_in_height c.hme_level2_search_area_in_height_array s.static_config_hme_level2_search_area_in_height_array) ∧ hmeSum c.number_hme_search_region_in_width (copied c.number_hme_search_region_in_height c.hme_level2_search_area_in_height_array s.static_config_hme_level2_search_area_in_height_array) ≤ 480),
   fun s c => decide (c.profile ≤ 2),
-  fun s c => decide (rej35 s c = false),
-  fun s c => decide (rej36 s c = false),
+  fun s c => decide (frameRate c ≤ 15728640),
+  fun s c => decide (frameRate c ≠ 0),
   fun s c => decide (c.rate_control_mode ≤ 2),
-  fun s c => decide (rej38 s c = false),
-  fun s c => decide (rej39 s c = false),
+  fun s c => decide ((c.rate_control_mode = 2 ∨ c.rate_control_mode = 3) → 0 ≤ intraPeriod c → lookAhead c = intraPeriod c),
+  fun s c => decide (lookAhead c ≤ 120 ∨ lookAhead c = 4294967295),
   fun s c => decide (c.tile_rows % 4294967296 ≤ 6 ∧ c.tile_columns % 4294967296 ≤ 6),
-  fun s c => decide (rej41 s c = false),
+  fun s c => decide (c.tile_columns ≤ 4 ∧ c.tile_rows + c.tile_columns ≤ 7),
   fun s c => decide (c.unrestricted_motion_vector ≤ 1),
   fun s c => decide (c.scene_change_detection = 0),
   fun s c => decide ((if c.rate_control_mode ≠ 0 then c.max_qp_allowed ≤ 63 ∧ c.min_qp_allowed < 63 ∧ c.min_qp_allowed ≤ c.max_qp_allowed else True)),
@@ -265,12 +383,12 @@ def codeDomainChecks : List (Scs → Cfg → Bool) := [
   fun s c => decide (c.encoder_bit_depth = 8 ∨ c.encoder_bit_depth = 10),
   fun s c => decide (¬ ((c.profile = 0 ∨ c.profile = 1) ∧ 10 < c.encoder_bit_depth)),
   fun s c => decide (c.encoder_color_format = 0 ∨ c.encoder_color_format = 1),
-  fun s c => decide (rej54 s c = false),
-  fun s c => decide (rej55 s c = false),
-  fun s c => decide (rej56 s c = false),
+  fun s c => decide (c.profile = 0 → colorFormat c ≤ 1),
+  fun s c => decide (c.profile = 1 → colorFormat c = 3),
+  fun s c => decide (c.profile = 2 ∧ c.encoder_bit_depth ≤ 10 → colorFormat c = 2),
   fun s c => decide (c.compressed_ten_bit_format = 0),
   fun s c => decide (c.speed_control_flag ≤ 1),
-  fun s c => decide (rej59 s c = false),
+  fun s c => decide (c.use_cpu_flags % 18446744073709551616 < 9223372036854775808),
   fun s c => decide (c.target_socket = -1 ∨ c.target_socket = 0 ∨ c.target_socket = 1),
   fun s c => decide (c.altref_strength ≤ 6),
   fun s c => decide (c.altref_nframes ≤ 13),
@@ -280,7 +398,7 @@ def codeDomainChecks : List (Scs → Cfg → Bool) := [
   fun s c => decide (-1 ≤ c.filter_intra_level ∧ c.filter_intra_level ≤ 1),
   fun s c => decide (c.enable_intra_edge_filter = 0 ∨ c.enable_intra_edge_filter = 1 ∨ c.enable_intra_edge_filter = -1),
   fun s c => decide (1 < c.logical_processors ∨ c.pic_based_rate_est = 0 ∨ c.pic_based_rate_est = 1 ∨ c.pic_based_rate_est = -1),
-  fun s c => decide (rej69 s c = false),
+  fun s c => decide (8 < c.encoder_bit_depth → -1 ≤ c.enable_hbd_mode_decision ∧ c.enable_hbd_mode_decision ≤ 2),
   fun s c => decide (-1 ≤ c.palette_level ∧ c.palette_level ≤ 6),
   fun s c => decide (c.rdoq_level = 0 ∨ c.rdoq_level = 1 ∨ c.rdoq_level = -1),
   fun s c => decide (-1 ≤ c.set_chroma_mode ∧ c.set_chroma_mode ≤ 3),
@@ -303,7 +421,7 @@ def codeDomainChecks : List (Scs → Cfg → Bool) := [
   fun s c => decide (c.new_nearest_comb_inject = 0 ∨ c.new_nearest_comb_inject = 1 ∨ c.new_nearest_comb_inject = -1),
   fun s c => decide (c.nsq_table = 0 ∨ c.nsq_table = 1 ∨ c.nsq_table = -1),
   fun s c => decide (c.frame_end_cdf_update = 0 ∨ c.frame_end_cdf_update = 1 ∨ c.frame_end_cdf_update = -1),
-  fun s c => decide (c.enable_manual_pred_struct = 0 ∨ s.manual_pred_struct_rejected = 0),
+  fun s c => decide (c.enable_manual_pred_struct = 0 ∨ validManualPredStruct c.manual_pred_struct_entry_num c.pred_struct),
   fun s c => decide (c.superres_mode ≤ 2),
   fun s c => decide (c.superres_mode ≤ 0 ∨ (c.rc_twopass_stats_in_sz = 0 ∧ c.rc_firstpass_stats_out = 0)),
   fun s c => decide (c.superres_qthres ≤ 63),
